@@ -247,8 +247,9 @@ impl ParamCurveArclen for QuadBez {
         let a = d2.hypot2();
         let d1 = self.p1 - self.p0;
         let c = d1.hypot2();
-        if a < 5e-4 * c {
-            // This case happens for nearly straight Béziers.
+        if a <= 5e-4 * c {
+            // This case happens for nearly straight Béziers (and, with `a == c == 0`, for
+            // a zero-length curve, which the closed form below turns into NaN).
             //
             // Calculate arclength using Legendre-Gauss quadrature using formula from Behdad
             // in https://github.com/Pomax/BezierInfo-2/issues/77
@@ -265,7 +266,9 @@ impl ParamCurveArclen for QuadBez {
         }
         let b = 2.0 * d2.dot(d1);
 
-        let sabc = (a + b + c).sqrt();
+        // `a + b + c` is `|p2 - p1|^2`; the rounded sum can come out slightly negative
+        // when p2 is at or near p1.
+        let sabc = (a + b + c).max(0.0).sqrt();
         let a2 = a.powf(-0.5);
         let a32 = a2.powi(3);
         let c2 = 2.0 * c.sqrt();
@@ -273,8 +276,13 @@ impl ParamCurveArclen for QuadBez {
 
         let v0 = 0.25 * a2 * a2 * b * (2.0 * sabc - c2) + sabc;
         // TODO: justify and fine-tune this exact constant.
-        if ba_c2 < 1e-13 {
-            // This case happens for Béziers with a sharp kink.
+        // The threshold is relative to the scale of the curve (`c2`): `ba_c2` is the
+        // difference of two terms of that size, so its rounding noise is a multiple of
+        // `c2 * EPSILON`; an absolute threshold lets that noise through for large
+        // coordinates, and the logarithm below then sees 0 or a negative number.
+        if ba_c2 <= 1e-14 * c2 {
+            // This case happens for Béziers with a sharp kink, and for collinear control
+            // points in general (where the factor `4ac - b²` of the logarithm vanishes).
             v0
         } else {
             v0 + 0.25
